@@ -10,11 +10,15 @@ EXTENDS BodyStream, Json, IOUtils
 VARIABLE h
 CONSTANTS Depth, MaxEvents, MaxEvLen, MaxData
 
-MCSizes    == {-1, 0, 1, 2, 3}
-MCCLs      == {NIL, 0, 1, 2, 3, 4, 5}
+MCSizes    == {-2, -1, 0, 1, 3}
+QSizes     == {-1, 0, 1, 2}
+H(k, v)    == [k |-> k, v |-> v]
+Odd        == {H("absent", NIL), H("lenient", 2), H("unusable", -2)}     \* no header, '+2' / ' 2', '-2' / 'x'
+MCCLs      == {H("valid", n) : n \in {0, 1, 2, 3, 5}} \cup Odd
+QCLs       == {H("valid", n) : n \in {0, 1, 3}} \cup Odd
 MCDatas    == SeqsUpTo({120, 10}, MaxData)
-SimSizes   == {-1, 0, 1, 2, 3, 5}
-SimCLs     == {NIL, 0, 1, 2, 3, 4, 5, 6, 7}
+SimSizes   == {-7, -2, -1, 0, 1, 2, 3, 5}
+SimCLs     == {H("valid", n) : n \in 0..7} \cup Odd \cup {H("lenient", 4), H("unusable", -5)}
 (* wrong-design switch of the vacuity runs, chosen through the environment (C07_WRONG) *)
 Wrong(name) == IOEnv.C07_WRONG = name
 SwShort    == ~Wrong("NoShortReads")
@@ -24,6 +28,9 @@ SwTrunc    == ~Wrong("NoTruncation")
 SwCount    == ~Wrong("MiscountTruncated")
 SwDisc     == ~Wrong("IgnoreDisconnect")
 SwTell     == ~Wrong("TellCountsPreloaded")
+SwNeg      == ~Wrong("NegativeLengthAccepted")
+SwYield    == ~(Wrong("AccountAfterYield") \/ Wrong("AccountAfterYieldThenBreak"))
+SwExh      == ~Wrong("ExhaustStopsAtShortChunk")
 (* the invariant each wrong design is expected to break *)
 Target == CASE Wrong("ChargeByRequested")   -> PrefixOfBody
             [] Wrong("UnboundedLineOps")    -> NeverAskBeyondCL
@@ -31,6 +38,10 @@ Target == CASE Wrong("ChargeByRequested")   -> PrefixOfBody
             [] Wrong("MiscountTruncated")   -> SizedReadBounded
             [] Wrong("IgnoreDisconnect")    -> DisconnectEndsStream
             [] Wrong("TellCountsPreloaded") -> IndicatorsAgree
+            [] Wrong("NegativeLengthAccepted") -> NeverAskBeyondCL
+            [] Wrong("AccountAfterYield")   -> IndicatorsAgree      \* tell() / eof lag inside the loop body
+            [] Wrong("AccountAfterYieldThenBreak") -> PrefixOfBody  \* more than Content-Length bytes after a break
+            [] Wrong("ExhaustStopsAtShortChunk") -> ExhaustEndsStream
             [] OTHER                        -> TRUE
 
 Shapes == {<<l, TRUE, mb, "req">> : l \in 0..MaxEvLen, mb \in 0..2}
@@ -61,8 +72,10 @@ XAReadAll   == AReadAll /\ Keep
 XAIter      == AIter /\ Keep
 XAExhaust   == AExhaust /\ Keep
 XAClose     == AClose /\ Keep
+XAIterNext  == AIterNext /\ Keep
+XAIterBreak == AIterBreak /\ Keep
 XNext == XWRead \/ XWReadLine \/ XWReadLines \/ XWNext \/ XWIterAll \/ XWExhaust \/ XWClose
-         \/ XARead \/ XAReadAll \/ XAIter \/ XAExhaust \/ XAClose
+         \/ XARead \/ XAReadAll \/ XAIter \/ XAExhaust \/ XAClose \/ XAIterNext \/ XAIterBreak
 
 HWRead      == (\E n \in Sizes : WRead(n)) /\ Log
 HWReadLine  == (\E n \in Sizes : WReadLine(n)) /\ Log
@@ -76,8 +89,10 @@ HAReadAll   == AReadAll /\ Log
 HAIter      == AIter /\ Log
 HAExhaust   == AExhaust /\ Log
 HAClose     == Len(h) >= Depth - 2 /\ AClose /\ Log
+HAIterNext  == AIterNext /\ Log
+HAIterBreak == AIterBreak /\ Log
 HNext == HWRead \/ HWReadLine \/ HWReadLines \/ HWNext \/ HWIterAll \/ HWExhaust \/ HWClose
-         \/ HARead \/ HAReadAll \/ HAIter \/ HAExhaust \/ HAClose
+         \/ HARead \/ HAReadAll \/ HAIter \/ HAExhaust \/ HAClose \/ HAIterNext \/ HAIterBreak
 
 (* one stack at a time, so that the two can be sized independently *)
 WInit == InitWsgi /\ h = <<>>
@@ -85,5 +100,5 @@ AInit == InitAsgi /\ h = <<>>
 
 (* behaviour export: one JSON object per finished behaviour *)
 Emit == (Len(h) = Depth) =>
-          PrintT(ToJson([iface |-> iface, cl |-> cl, sent |-> sent, evs |-> evs, first |-> first, ev |-> h]))
+          PrintT(ToJson([iface |-> iface, clh |-> clh, cl |-> cl, sent |-> sent, evs |-> evs, first |-> first, ev |-> h]))
 ==========================================================================
